@@ -22,13 +22,27 @@ KNOWN = os.path.join(ROOT, 'known_findings.json')
 CLAIMED = ['C01', 'C02', 'C03', 'C04', 'C05', 'C06', 'C08', 'C09', 'C10', 'C16', 'C20']
 
 
+def unit_text(path):
+    """text of the unit with includes expanded; lines coming from include-assumed files are left out"""
+    return '\n'.join(t[0] for t in extract.load_template(path) if not t[3])
+
+
 def units_for(prop):
     res = []
     for p in sorted(glob.glob(os.path.join(UNITS_DIR, '*.rs'))):
-        txt = open(p).read()
+        txt = unit_text(p)
         if re.search(r'\[[^\]\n]*\b' + prop + r'\.', txt) or re.search(r'props=[A-Z0-9,]*\b' + prop + r'\b', txt):
             res.append(p)
     return res
+
+
+def depends_of(path):
+    deps = []
+    for t in extract.load_template(path):
+        m = re.match(r'\s*//@ depends (.*)$', t[0])
+        if m:
+            deps += m.group(1).split()
+    return [os.path.join(UNITS_DIR, d + '.rs') for d in deps]
 
 
 def load_known():
